@@ -485,6 +485,21 @@ impl<S: AsyncRead + AsyncWrite + Unpin> NoiseSocket<S> {
             self.canonical_max_read,
         ]
     }
+
+    /// `[sending nonce, receiving nonce]` of the transport cipher states (`[0, 0]` while the
+    /// context is still in handshake mode).
+    pub fn verif_nonces(&self) -> [u64; 2] {
+        match &self.noise.noise {
+            NoiseState::Transport(transport) =>
+                [transport.sending_nonce(), transport.receiving_nonce()],
+            NoiseState::Handshake(_) => [0, 0],
+        }
+    }
+
+    /// The valid part of the read-ahead buffer, `read_buffer[..nread]`.
+    pub fn verif_read_window(&self) -> &[u8] {
+        &self.read_buffer[..self.nread]
+    }
 }
 
 impl<S: AsyncRead + AsyncWrite + Unpin> AsyncRead for NoiseSocket<S> {
